@@ -582,6 +582,12 @@ func (ro *RedisOutput) sendRdb(pctx context.Context, reader ChannelReader) error
 		ro.logger.Errorf("send rdb ERROR : runId(%s), offset(%d), size(%d), error(%v)", reader.RunId(), reader.Left(), reader.Size(), errs[0])
 		return err
 	}
+	if err := pctx.Err(); err != nil {
+		// the replay was interrupted : workers and distributor return nil when the context is done
+		// although entries may still be queued, so the full sync is not complete
+		ro.logger.Errorf("send rdb interrupted : runId(%s), offset(%d), size(%d), error(%v)", reader.RunId(), reader.Left(), reader.Size(), err)
+		return err
+	}
 	ro.logger.Debugf("send rdb OK : runId(%s), offset(%d), size(%d)", reader.RunId(), reader.Left(), reader.Size())
 	if ro.bisyncEnabled() {
 		ro.bisyncOffset.Store(reader.Left())
